@@ -393,6 +393,43 @@ def r18_9(ctx):
     ctx.floor('R18.9', 'CanonicalOperator construction sites', n, 4)
 
 
+def r18_11(ctx):
+    """(a) TensorGenerator.matrix_at: the first running index of the matrix slice lands on axes[0], the second on axes[1], in
+    the order given -- min / max / sorted of the axes puts them on the smaller / larger axis instead (descending axis pairs give
+    the transposed slice or an IndexError).  (b) thresholds on tensor core entries test the ABSOLUTE value: a comparison of a
+    raw core entry with a tiny positive constant drops every negative entry."""
+    ma = ctx.prog.func(LR + '.TensorGenerator.matrix_at')
+    srt = [c for c in ast.walk(ma.node) if isinstance(c, ast.Call) and call_name(c) in ('min', 'max', 'sorted', 'np.sort')
+           and any(isinstance(x, ast.Name) and x.id in ('axes', 'a0', 'a1') for a in c.args for x in ast.walk(a))]
+    if srt:
+        ctx.violated('R18.11', ma.qual, src(srt[0]), srt[0],
+                     'the two axes of the slice are ordered by size: with axes=(2, 0) the running index pair (i, j) addresses entry '
+                     '(j, ., i) of the wrapped array instead of (i-th along axis 2, j-th along axis 0) -- the generator returns the transposed '
+                     'matrix (equal extents) or raises IndexError (different extents)')
+    else:
+        ctx.met('R18.11', ma.qual, 'axes are used in the order given', ma.node, 'no sorting of the axis pair')
+    ft = ctx.prog.func(T + '.CanonicalTensor.from_tensor')
+    bad = []
+    for c in ast.walk(ft.node):
+        if isinstance(c, ast.Compare) and len(c.ops) == 1 and isinstance(c.ops[0], (ast.Gt, ast.GtE)) \
+                and isinstance(c.comparators[0], ast.Constant) and isinstance(c.comparators[0].value, float) and 0 < c.comparators[0].value < 1e-6:
+            left = c.left
+            has_abs = any(isinstance(x, ast.Call) and (call_name(x) or '').split('.')[-1] in ('abs', 'absolute', 'fabs', 'norm') for x in ast.walk(left))
+            if not has_abs:
+                # a local that was bound from abs(...) counts
+                if isinstance(left, ast.Name):
+                    defs = [s_.value for s_ in own_nodes(ft.node) if isinstance(s_, ast.Assign) and src(s_.targets[0]) == left.id]
+                    if defs and all(any(isinstance(x, ast.Call) and (call_name(x) or '').split('.')[-1] in ('abs', 'absolute', 'norm') for x in ast.walk(d_)) for d_ in defs):
+                        continue
+                bad.append(c)
+    if bad:
+        ctx.violated('R18.11', ft.qual, src(bad[0]), bad[0],
+                     'core entries are kept when they EXCEED a tiny positive threshold, without taking the absolute value: every negative '
+                     'entry of a Tucker core (T1 - T2, -T, any HOSVD) contributes no rank-one term and the converted tensor differs from T')
+    else:
+        ctx.met('R18.11', ft.qual, 'negligible core entries are recognised by their absolute value', ft.node)
+
+
 def r18_10(ctx):
     """A multi-index kept in a LIST must be converted to a tuple before it subscripts an array: `E[[j, k]]` (a list, or a slice
     of a list) is numpy's fancy indexing along axis 0 -- it addresses the ROWS j and k, and raises IndexError when k exceeds
@@ -428,7 +465,30 @@ def r18_10(ctx):
         ctx.met('R18.10', LR + '.aca_3d', 'multi-indices subscript arrays as tuples', ctx.prog.func(LR + '.aca_3d').node, 'no list used as a multi-index')
 
 
+def r18_12(ctx):
+    """squeeze(axis) is documented as numpy.squeeze: negative axes count from the end.  The axes are normalised (mod ndim)
+    before they are removed from range(ndim); otherwise `set(range(ndim)) - {-1}` removes nothing and the singleton factor is
+    applied twice."""
+    for cname in ('CanonicalTensor', 'TuckerTensor'):
+        f = ctx.prog.maybe_func('%s.%s.squeeze' % (T, cname))
+        if f is None:
+            continue
+        diff = [b for b in ast.walk(f.node) if isinstance(b, ast.BinOp) and isinstance(b.op, ast.Sub) and 'range(self.ndim)' in src(b.left) and 'axis' in src(b.right)]
+        if not diff:
+            ctx.undecided('R18.12', f.qual, 'remaining axes', f.node, 'not recognised')
+            continue
+        t = src(f.node).replace(' ', '')
+        normalised = '%self.ndim' in t or 'normalize_axis' in t or '+self.ndim' in t
+        ctx.decide('R18.12', f.qual, src(diff[0]), True if normalised else False, diff[0],
+                   'axes are normalised before the set difference' if normalised else
+                   'a negative axis (squeeze(-1), valid for numpy.squeeze) is not an element of range(ndim): nothing is removed, the result '
+                   'keeps the singleton axis and its factor is multiplied in twice (CanonicalTensor) / an assertion fails (TuckerTensor)',
+                   definite=True)
+
+
 def run(ctx):
+    r18_12(ctx)
+    r18_11(ctx)
     r18_10(ctx)
     r18_9(ctx)
     r18_8(ctx)
